@@ -55,6 +55,31 @@ Theorem C20_rw_sections_atomic : forall (S A : Type) (wb : nat -> list (S -> S))
      (writer_in S A (rths S A c j) -> i = j) /\ ~ reader_in S A (rths S A c j)).
 Proof. exact rw_sections_atomic. Qed.
 
+(* no deadlock between a handler that queues work for a consumer loop and that loop
+   (Announce.SetBalancer -> spamCh -> spamLoop -> gratuitous -> RLock), bounded queue of any
+   capacity >= 1:  if the blocking send happens while the handler still holds the mutex the
+   consumer needs, a state is reachable in which nothing can move (queue full, handler waits for
+   room holding the mutex, consumer waits for the mutex); with the send after the unlock every
+   reachable state can move.  The obligation repo_no_blocking_send_under_lock decides, on the
+   facts regenerated from the Go AST (defers run LIFO), which of the two shapes the code has. *)
+Theorem C20_send_under_lock_deadlocks : forall cap, 1 <= cap ->
+  exists s, qsteps true cap (mk_qstate HP0 C0 0) s /\ qstuck true cap s /\
+            qh s = HP1 /\ qc s = C1 /\ qq s = cap.
+Proof. exact send_under_lock_deadlocks. Qed.
+
+Theorem C20_send_after_unlock_progress : forall cap s, 1 <= cap ->
+  qsteps false cap (mk_qstate HP0 C0 0) s -> exists s', qstep false cap s s'.
+Proof. exact send_after_unlock_progress. Qed.
+
+(* non-vacuity of the obligation: the two defer orders of SetBalancer *)
+Example C20_nonvacuous_send :
+  let loop := ("A.spamLoop", [Recv "A.ch"; Call "A.gratuitous"]) in
+  let grat := ("A.gratuitous", [AcqR "A.mu"; RelR "A.mu"]) in
+  no_blocking_send_under_lock [("A.set", [Acq "A.mu"; Rel "A.mu"; Send "A.ch"]); loop; grat] = true /\
+  no_blocking_send_under_lock [("A.set", [Acq "A.mu"; Send "A.ch"; Rel "A.mu"]); loop; grat] = false /\
+  blocking_senders [("A.set", [Acq "A.mu"; Call "A.doSpam"; Rel "A.mu"]); ("A.doSpam", [Send "A.ch"]); loop; grat] = ["A.set"].
+Proof. vm_compute. repeat split. Qed.
+
 (* non-vacuity: a correctly locked reader/writer pair passes, dropping the read
    lock fails the checker, and the unlocked program really reaches a racy state *)
 Definition ex_G : guard_map := [("T.f", "T.mu")].
